@@ -6,6 +6,7 @@ import (
 	"fmt"
 	"os"
 	"regexp"
+	"runtime"
 	"runtime/debug"
 	"sort"
 	"strings"
@@ -42,6 +43,8 @@ func main() {
 		maxSec   = flag.Int("max-seconds", 1500, "per harness time budget")
 		timeout  = flag.Int("solver-timeout", 60000, "per query timeout ms")
 		tags     = flag.String("tags", "", "build tags")
+		workers  = flag.Int("workers", 8, "workers per harness (share the prefix queue)")
+		cpus     = flag.Int("cpus", runtime.NumCPU(), "paths executing concurrently over all harnesses")
 	)
 	flag.Parse()
 	t0 := time.Now()
@@ -122,6 +125,7 @@ func main() {
 	if *verbose {
 		fmt.Fprintf(os.Stderr, "loaded %d packages in %.1fs, %d harnesses\n", out.Packages, out.LoadS, len(harnesses))
 	}
+	cpuTokens = make(chan struct{}, *cpus)
 	results := make([]*HarnessResult, len(harnesses))
 	var wg sync.WaitGroup
 	sem := make(chan struct{}, *jobs)
@@ -142,6 +146,7 @@ func main() {
 			c.Verbose = *verbose
 			c.MaxSeconds = *maxSec
 			c.SolverTimeout = *timeout
+			c.Workers = *workers
 			results[i] = runHarness(prog, h, c)
 			if *verbose {
 				r := results[i]
